@@ -90,9 +90,20 @@ def _gzip_members(data):
         try:
             raw = d.decompress(data[pos:])
         except zlib.error:
-            # not (the beginning of) a gzip member: junk up to the end (zero filling, foreign bytes, bad CRC)
-            out.append({'st': 'junk', 'off': pos, 'len': n - pos, 'raw': b'', 'gz': True})
-            break
+            # not (the beginning of) a gzip member (zero filling, foreign bytes, bad CRC): junk up to the next
+            # position at which a gzip member can be decoded, or up to the end
+            q = data.find(b'\x1f\x8b\x08', pos + 1)
+            while q >= 0:
+                t = zlib.decompressobj(31)
+                try:
+                    t.decompress(data[q:q + 64])
+                    break
+                except zlib.error:
+                    q = data.find(b'\x1f\x8b\x08', q + 1)
+            end = q if q >= 0 else n
+            out.append({'st': 'junk', 'off': pos, 'len': end - pos, 'raw': b'', 'gz': True})
+            pos = end
+            continue
         if d.eof:
             used = n - pos - len(d.unused_data)
             out.append({'st': 'complete', 'off': pos, 'len': used, 'raw': raw, 'gz': True})
